@@ -69,7 +69,9 @@ Definition locked_by (st : dstate) (c : chan) : nat :=
   match d_lock st with Some (ORem c') => if Nat.eqb c' c then 1 else 0 | _ => 0 end.
 Definition dlock_free (st : dstate) : bool := match d_lock st with None => true | Some _ => false end.
 
-Definition dstep (st : dstate) (l : label) : option dstate :=
+(* `hint` is only used by LSelSent: reflect.Select may choose ANY ready case; 0 = the first case of the
+   channel, j+1 = the case at index j of `cases` (recorded by the select_index trace point) *)
+Definition dstep (st : dstate) (l : label) (hint : nat) : option dstate :=
   if d_panicked st then None else
   match l with
   | LSubscribe c cap =>
@@ -124,12 +126,18 @@ Definition dstep (st : dstate) (l : label) : option dstate :=
           then Some (dset_snd st s {| s_pc := SSelect; s_k := s_k (d_sndr st s); s_nsent := s_nsent (d_sndr st s) |}) else None
       | _ => None
       end
-  (* reflect.Select may choose ANY ready case of the channel; the cases of one channel are indistinguishable
-     and the model takes the first one *)
   | LSelSent s c =>
       match s_pc (d_sndr st s) with
       | SSelect =>
-          match cfind c (firstn (s_k (d_sndr st s)) (d_arr st)) with
+          let k := s_k (d_sndr st s) in
+          let oj := match hint with
+                    | 0 => cfind c (firstn k (d_arr st))
+                    | S j => if Nat.ltb j k then match nth_error (d_arr st) j with
+                                                 | Some c' => if Nat.eqb c' c then Some j else None
+                                                 | None => None end
+                             else None
+                    end in
+          match oj with
           | Some j => if can_accept (d_chs st c) then Some (ddeliver st s c j (STry 0)) else None
           | None => None
           end
@@ -222,16 +230,16 @@ Definition dstep (st : dstate) (l : label) : option dstate :=
       end
   end.
 
-Fixpoint drun_from (st : dstate) (tr : list label) (n : nat) : dstate + nat :=
+Fixpoint drun_from (st : dstate) (tr : list (label * nat)) (n : nat) : dstate + nat :=
   match tr with
   | [] => inl st
-  | l :: t => match dstep st l with Some st' => drun_from st' t (S n) | None => inr n end
+  | (l, h) :: t => match dstep st l h with Some st' => drun_from st' t (S n) | None => inr n end
   end.
 
-Fixpoint drun (st : dstate) (tr : list label) : option dstate :=
+Fixpoint drun (st : dstate) (tr : list (label * nat)) : option dstate :=
   match tr with
   | [] => Some st
-  | l :: t => match dstep st l with Some st' => drun st' t | None => None end
+  | (l, h) :: t => match dstep st l h with Some st' => drun st' t | None => None end
   end.
 
 Fixpoint cnt (c : chan) (l : list chan) : nat :=
